@@ -9,7 +9,7 @@ sys.path.insert(0, os.path.join(ROOT, 'lib'))
 import props as P
 COV = '/tmp/cov'; HN = COV + '/harness'; WT = COV + '/repo'
 TOOLS = os.path.expanduser('~/.rustup/toolchains/nightly-x86_64-unknown-linux-gnu/lib/rustlib/x86_64-unknown-linux-gnu/bin')
-BIN = HN + '/target/debug/verif-harness'
+BIN = HN + ('/target_br' if '--branches' in sys.argv else '/target') + '/debug/verif-harness'
 
 
 def sh(cmd, **kw):
@@ -17,7 +17,7 @@ def sh(cmd, **kw):
 
 
 def main():
-    pids = [a for a in sys.argv[1:] if a.startswith('C')] or sorted(P.PROPS)
+    pids = [a for a in sys.argv[1:] if a.startswith('C') and not a.startswith('--')] or sorted(P.PROPS)
     prof = COV + '/prof'; shutil.rmtree(prof, ignore_errors=True); os.makedirs(prof)
     nsh = 16; procs = []
     for pid in pids:
@@ -44,6 +44,24 @@ def main():
         elif l.startswith('DA:') and cur:
             ln, cnt = l[3:].split(',')[:2]; cov[cur][int(ln)] = int(cnt)
     outdir = os.path.join(ROOT, 'notes', 'coverage'); os.makedirs(outdir, exist_ok=True)
+    if '--branches' in sys.argv:
+        # BRDA:<line>,<block>,<branch>,<taken or ->  : list the branch directions never taken on lines that ARE executed
+        cur = None; br = collections.defaultdict(list)
+        for l in out.split('\n'):
+            if l.startswith('SF:'): cur = l[3:]
+            elif l.startswith('BRDA:') and cur and cur.startswith(WT + '/src/'):
+                ln, blk, b, taken = l[5:].split(',')
+                br[cur].append((int(ln), blk, b, taken))
+        tot = 0; nev = 0
+        for f, lst in sorted(br.items()):
+            name = os.path.basename(f); src = open(f, errors='replace').read().split('\n')
+            miss = [(ln, blk, b) for ln, blk, b, t in lst if t in ('-', '0') and cov[f].get(ln, 0) > 0]
+            tot += len(lst); nev += len(miss)
+            with open(os.path.join(outdir, name + '.branches'), 'w') as o:
+                o.write('# %s: %d branch directions instrumented, %d never taken on executed lines\n' % (name, len(lst), len(miss)))
+                for ln, blk, b in miss: o.write('%d (%s.%s): %s\n' % (ln, blk, b, src[ln - 1].strip()[:120]))
+            print('%-32s %5d branch directions, %4d never taken (on executed lines)' % (name, len(lst), len(miss)))
+        print('branches total %d, never taken %d' % (tot, nev))
     rows = []
     for f, d in sorted(cov.items()):
         if not f.startswith(WT + '/src/'): continue
